@@ -388,8 +388,8 @@ def tolerance_games(rnd, n):
     return out
 
 
-def random_games(rnd, n):
-    kind = rnd.choice(["sa", "sa", "sa-broken", "sam", "sam-broken", "convex", "convex-broken", "additive", "neg-additive",
+def random_games(rnd, n, turn=None):
+    kind = (lambda kinds_: kinds_[turn % len(kinds_)] if turn is not None else rnd.choice(kinds_))(["sa", "sa", "sa-broken", "sam", "sam-broken", "convex", "convex-broken", "additive", "neg-additive",
                        "random", "random", "v0", "v0-small-among-huge", "near-additive-huge", "huge-opposite-parts"] + (["matching", "matching-one-split", "matching-one-split"] if n >= 4 else []))
     N = 2 ** n
     if kind == "huge-opposite-parts":
@@ -401,7 +401,11 @@ def random_games(rnd, n):
         w[i_], w[j_] = H, -H + rnd.randint(-2, 3)
         v = [Fraction(sum(w[k_] for k_ in range(n) if c >> k_ & 1)) for c in range(N)]
         both = [c for c in range(N) if c >> i_ & 1 and c >> j_ & 1]
-        v[rnd.choice(both)] += rnd.choice([-2, -1, 1, 2])
+        if rnd.random() < 0.6:
+            # exactly the pair {i, j} is lowered: the ONLY violated split is ({i}, {j}), whose parts are the two huge values
+            v[(1 << i_) | (1 << j_)] += rnd.choice([-2, -1])
+        else:
+            v[rnd.choice(both)] += rnd.choice([-2, -1, 1, 2])
         return kind, v
     if kind == "near-additive-huge":
         # an additive cost game of magnitude 10^6 … 2^40 with ONE coalition moved by 1 (or 1/2): additive "to within 1e-6 relative",
@@ -542,8 +546,8 @@ def part_predicates(res, script, post, tier, budget, rnd):
             res.notes.append(f"predicates: budget exhausted after {r} random rounds")
             break
         n = rnd.choice([3, 3, 4, 4, 5])
-        kind, v = random_games(rnd, n)
-        if rnd.random() < 0.5:
+        kind, v = random_games(rnd, n, turn=r)          # the kinds take turns: every kind is visited in every run
+        if (rnd.random() < 0.5) if kind not in ("huge-opposite-parts", "near-additive-huge", "v0-small-among-huge") else (r // 18) % 3 != 2:
             one(n, v, RT_DEFAULT, Fraction(0), TOL_DEFAULT, True, False, f"random-{kind}")
         else:
             one(n, v, rnd.choice([Fraction(0), Fraction(1, 8), Fraction(1, 2)]), rnd.choice([Fraction(0), Fraction(1, 2), Fraction(1)]),
